@@ -42,6 +42,79 @@ class CustomBase(BaseException):
 EXC["CustomError"] = CustomError
 EXC["CustomBase"] = CustomBase
 
+
+class StrFailure(Exception):
+    """what the unprintable exceptions below raise from __str__ / __repr__"""
+
+
+class StrRaises(Exception):
+    def __str__(self):
+        raise StrFailure("str() of the injected exception raises")
+
+
+class ReprRaises(Exception):
+    def __str__(self):
+        raise StrFailure("str() of the injected exception raises")
+
+    def __repr__(self):
+        raise StrFailure("repr() of the injected exception raises")
+
+
+class _Unprintable(object):
+    def __str__(self):
+        raise StrFailure("str() of the exception's argument raises")
+    __repr__ = __str__
+
+
+class UnprintableArgs(Exception):
+    pass
+
+
+class NeedsArgs(Exception):
+    def __init__(self, code, detail):
+        Exception.__init__(self, code, detail)
+        self.code, self.detail = code, detail
+
+
+for _c in (StrFailure, StrRaises, ReprRaises, UnprintableArgs, NeedsArgs):
+    EXC[_c.__name__] = _c
+EXC["OSErrorErrno"] = OSError
+EXC["UnicodeDecodeError"] = UnicodeDecodeError
+EXC["IsADirectoryError"] = IsADirectoryError
+EXC["FileNotFoundError"] = FileNotFoundError
+
+
+def make_exc(name, site):
+    """the exception object a stub raises"""
+    if name == "UnprintableArgs":
+        return UnprintableArgs(_Unprintable())
+    if name == "NeedsArgs":
+        return NeedsArgs(7, "injected at %s" % site)
+    if name == "OSErrorErrno":
+        import errno
+        return OSError(errno.EACCES, "Permission denied (injected at %s)" % site, "/nonexistent/db.py")
+    if name == "UnicodeDecodeError":
+        return UnicodeDecodeError("utf-8", b"\xe9 injected", 0, 1, "invalid continuation byte")
+    return EXC[name]("injected at %s" % site)
+
+
+def safe_str(e, n=160):
+    try:
+        return str(e)[:n]
+    except BaseException as e2:
+        return "<str() raised %s>" % type(e2).__name__
+
+
+SCRIPTS = {
+    # a valid script in latin-1 with a coding cookie: CPython runs it, pyflyby reads it as UTF-8
+    "latin1": b"# -*- coding: latin-1 -*-\nzz_r = '\xe9'\nzz_s = len(zz_r)\n",
+    # UTF-8 BOM: CPython runs it
+    "bom": b"\xef\xbb\xbfzz_r = 1\n",
+    # invalid UTF-8 without a cookie: CPython refuses it too
+    "badutf8": b"zz_r = '\xe9'\n",
+    "syntaxerr": b"zz_r = = 1\n",
+}
+
 JP_ORDER = ["input_splitter.reset", "_ofind", "run_ast_nodes", "compile", "magic.time", "magic.timeit",
             "_run_with_profiler", "magic.prun", "matchers", "global_matches", "attr_matches", "safe_execfile",
             "debugger", "_run_with_debugger"]
@@ -233,7 +306,7 @@ def drive(case, scratch):
             def stub(*a, **k):
                 if site in armed:
                     hits[site] = hits.get(site, 0) + 1
-                    raise EXC[armed[site]]("injected at %s" % site)
+                    raise make_exc(armed[site], site)
                 return orig(*a, **k)
             stub.__name__ = getattr(orig, "__name__", "stub")
             return stub
@@ -247,7 +320,7 @@ def drive(case, scratch):
             def __get__(self, obj, cls):
                 if obj is not None and "SParse" in armed:
                     hits["SParse"] = hits.get("SParse", 0) + 1
-                    raise EXC[armed["SParse"]]("injected at SParse")
+                    raise make_exc(armed["SParse"], "SParse")
                 return _orig_ast_node.__get__(obj, cls)
         P.PythonBlock.ast_node = _AstNodeProxy()
         D.ImportDB.get_default = classmethod(bomb("SDbLoad", D.ImportDB.get_default.__func__))
@@ -311,6 +384,27 @@ def drive(case, scratch):
     def do_cell(op):
         act, text = op["act"], op["text"]
         r = {"act": act}
+        if act == "runfile":
+            # natural triggers: the script itself makes pyflyby's own read / parse of it fail
+            script = op.get("script", "default")
+            runpath = os.path.join(scratch, "runme.py")
+            if script == "dir":
+                runpath = os.path.join(scratch, "adir.py")
+                os.makedirs(runpath, exist_ok=True)
+            elif script != "default":
+                runpath = os.path.join(scratch, "run_%s.py" % script)
+                with open(runpath, "wb") as f:
+                    f.write(SCRIPTS[script])
+            if with_pf:
+                # what pyflyby's own read / parse of this script does (unarmed): an oracle argument of the model
+                stage = "construct"
+                try:
+                    blk = P.PythonBlock(P.Filename(runpath))
+                    stage = "ast_node"
+                    blk.ast_node
+                    r["natural_parse"] = None
+                except BaseException as e:
+                    r["natural_parse"] = [type(e).__name__, stage]
         before = set(ns_names())
         buf = io.StringIO()
         pf_calls[0] = 0
@@ -334,7 +428,7 @@ def drive(case, scratch):
                     out["env"]["stdout_proxy"] = type(sys.stdout).__module__.startswith("prompt_toolkit.")
                 if act in ("run", "runfile", "prun", "debugstmt"):
                     if act == "runfile":
-                        text = "%run -i " + os.path.join(scratch, "runme.py")
+                        text = "%run -i " + runpath
                     res = ip.run_cell(text, store_history=False)
                     err = res.error_in_exec or res.error_before_exec
                     r["result"] = repr(res.result)
@@ -350,7 +444,7 @@ def drive(case, scratch):
                     raise ValueError(act)
         except BaseException as e:
             r["escaped"] = type(e).__name__
-            r["escaped_msg"] = str(e)[:120]
+            r["escaped_msg"] = safe_str(e, 120)
         finally:
             sys.setprofile(None)
             armed.clear()
@@ -375,7 +469,7 @@ def drive(case, scratch):
                 do_op(op["op"])
             except BaseException as e:
                 ent["escaped"] = type(e).__name__
-                ent["escaped_msg"] = str(e)[:200]
+                ent["escaped_msg"] = safe_str(e, 200)
         ent["snap"] = snapshot()
         out["trace"].append(ent)
     try:
